@@ -494,6 +494,9 @@ class Parser(ExprParser):
                         node.attrs["_constructor"] = True
                         more = False
                     # Save fully resolved typename
+                    if not hasattr(ns, "typemap"):
+                        self.error_msg(
+                            "'{}' is not a type".format(ns_name))
                     node.typemap = ns.typemap
                     found_type = True
                 else:
